@@ -687,20 +687,29 @@ fn exec<'a, T: Elem>(st: &mut State<'a, T>, s: &Step) {
             let shared = st.shared;
             let nc = match s.s.as_str() {
                 "B" => Cont::B(shared.alloc_iter_exact(s.xs.iter().map(|&i| T::make(i)))),
-                "F" => {
-                    let mut f = FixedBumpVec::with_capacity_in(s.i, shared);
-                    for &i in &s.xs {
-                        f.push(T::make(i));
+                "F" => match s.j {
+                    1 => Cont::F(FixedBumpVec::from_iter_in(GenIter::<T>::new(&s.xs, 0, false), shared)),
+                    2 => Cont::F(FixedBumpVec::from_iter_exact_in(s.xs.iter().map(|&i| T::make(i)), shared)),
+                    _ => {
+                        let mut f = FixedBumpVec::with_capacity_in(s.i, shared);
+                        for &i in &s.xs {
+                            f.push(T::make(i));
+                        }
+                        Cont::F(f)
                     }
-                    Cont::F(f)
-                }
-                "V" => {
-                    let mut f = if s.i == 0 { BumpVec::new_in(shared) } else { BumpVec::with_capacity_in(s.i, shared) };
-                    for &i in &s.xs {
-                        f.push(T::make(i));
+                },
+                "V" => match s.j {
+                    1 => Cont::V(BumpVec::from_iter_in(GenIter::<T>::new(&s.xs, 0, false), shared)),
+                    2 => Cont::V(BumpVec::from_iter_exact_in(s.xs.iter().map(|&i| T::make(i)), shared)),
+                    3 => Cont::V(BumpVec::from_owned_slice_in(make_vec::<T>(&s.xs, false), shared)),
+                    _ => {
+                        let mut f = if s.i == 0 { BumpVec::new_in(shared) } else { BumpVec::with_capacity_in(s.i, shared) };
+                        for &i in &s.xs {
+                            f.push(T::make(i));
+                        }
+                        Cont::V(f)
                     }
-                    Cont::V(f)
-                }
+                },
                 o => unsupported(o),
             };
             st.slots[d] = nc;
